@@ -200,6 +200,19 @@ pub fn asn1_value(input: Input<'_>) -> ParserResult<'_, ASN1Value> {
     .parse(input)
 }
 
+/// Parses the `object.&field.&` prefix of a reference into an information object. White space
+/// and comments may surround the dots; the prefix is returned without them.
+fn object_field_prefix(input: Input<'_>) -> ParserResult<'_, String> {
+    map(
+        many1(terminated(
+            identifier,
+            pair(skip_ws_and_comments(char(DOT)), skip_ws_and_comments(char('&'))),
+        )),
+        |ids: Vec<&str>| ids.iter().map(|id| format!("{id}.&")).collect(),
+    )
+    .parse(input)
+}
+
 pub fn elsewhere_declared_value(input: Input<'_>) -> ParserResult<'_, ASN1Value> {
     map(
         (
@@ -207,15 +220,12 @@ pub fn elsewhere_declared_value(input: Input<'_>) -> ParserResult<'_, ASN1Value>
                 skip_ws_and_comments(module_reference),
                 skip_ws_and_comments(char(DOT)),
             )),
-            opt(skip_ws_and_comments(recognize(many1(pair(
-                identifier,
-                tag(".&"),
-            ))))),
+            opt(object_field_prefix),
             skip_ws_and_comments(value_reference),
         ),
         |(m, p, id)| ASN1Value::ElsewhereDeclaredValue {
             module: m.map(str::to_owned),
-            parent: p.map(|par| par.inner().to_string()),
+            parent: p,
             identifier: id.into(),
         },
     )
@@ -225,10 +235,7 @@ pub fn elsewhere_declared_value(input: Input<'_>) -> ParserResult<'_, ASN1Value>
 pub fn elsewhere_declared_type(input: Input<'_>) -> ParserResult<'_, ASN1Type> {
     map(
         (
-            opt(skip_ws_and_comments(into_inner(recognize(many1(pair(
-                identifier,
-                tag(".&"),
-            )))))),
+            opt(object_field_prefix),
             opt(skip_ws_and_comments(terminated(
                 module_reference,
                 skip_ws_and_comments(char(DOT)),
@@ -238,7 +245,7 @@ pub fn elsewhere_declared_type(input: Input<'_>) -> ParserResult<'_, ASN1Type> {
         ),
         |(parent, module, id, constraints)| {
             ASN1Type::ElsewhereDeclaredType(DeclarationElsewhere {
-                parent: parent.map(str::to_owned),
+                parent,
                 module: module.map(str::to_owned),
                 identifier: id.to_owned(),
                 constraints: constraints.unwrap_or_default(),
